@@ -1269,7 +1269,7 @@ typename quantiles_sketch<T, C, A>::const_iterator& quantiles_sketch<T, C, A>::c
 }
 
 template<typename T, typename C, typename A>
-typename quantiles_sketch<T, C, A>::const_iterator& quantiles_sketch<T, C, A>::const_iterator::operator++(int) {
+typename quantiles_sketch<T, C, A>::const_iterator quantiles_sketch<T, C, A>::const_iterator::operator++(int) {
   const_iterator tmp(*this);
   operator++();
   return tmp;
